@@ -329,6 +329,9 @@ func (x *expander) stmt(s ast.Stmt, next ast.Stmt, depth int) []ast.Stmt {
 				return []ast.Stmt{blk}
 			}
 		} else {
+			if x.cmpCallToInit(t, depth) {
+				return x.stmt(t, next, depth)
+			}
 			if lowered := x.lowerCond(t, depth); lowered != nil {
 				return x.block(lowered, depth)
 			}
@@ -375,6 +378,29 @@ func (x *expander) stmt(s ast.Stmt, next ast.Stmt, depth int) []ast.Stmt {
 	case *ast.RangeStmt:
 		if un := x.unrollTable(t); un != nil {
 			return x.blockC(un, depth, false, next)
+		}
+		// `for … := range helper(args)` over a list the helper builds: the list is computed first, like any
+		// assigned call
+		if call, ok := ast.Unparen(t.X).(*ast.CallExpr); ok {
+			if _, exp := x.target(call, depth); exp {
+				if typ := x.info.TypeOf(call); typ != nil {
+					if _, isFunc := typ.Underlying().(*types.Signature); !isFunc {
+						if _, isTuple := typ.(*types.Tuple); !isTuple {
+							x.seq++
+							tmp := types.NewVar(call.Pos(), x.top.Pkg.Types, fmt.Sprintf("inl%d_seq", x.seq), typ)
+							def := &ast.Ident{NamePos: call.Pos(), Name: tmp.Name()}
+							x.info.Defs[def] = tmp
+							as := &ast.AssignStmt{Lhs: []ast.Expr{def}, TokPos: call.Pos(), Tok: token.DEFINE, Rhs: []ast.Expr{call}}
+							use := &ast.Ident{NamePos: call.Pos(), Name: tmp.Name()}
+							x.info.Uses[use] = tmp
+							x.info.Types[use] = types.TypeAndValue{Type: typ}
+							t.X = use
+							x.rewrote = true
+							return x.blockC([]ast.Stmt{as, t}, depth, false, next)
+						}
+					}
+				}
+			}
 		}
 		if un := x.rangeOverFunc(t, depth); un != nil {
 			// the iterator first (its expansion yields the literal it returns), then the loop body as a closure,
@@ -1830,7 +1856,8 @@ func (x *expander) unrollTable(rs *ast.RangeStmt) []ast.Stmt {
 	ast.Inspect(rs.Body, func(n ast.Node) bool {
 		switch t := n.(type) {
 		case *ast.BranchStmt:
-			if t.Label != nil {
+			// (a jump out of the loop to a label outside it — a return of an expanded callee — can be copied)
+			if t.Label != nil && t.Tok != token.GOTO {
 				labelled = true
 			}
 		case *ast.LabeledStmt:
@@ -2507,6 +2534,10 @@ func (x *expander) lowerCond(ifs *ast.IfStmt, depth int) []ast.Stmt {
 				}
 			}
 		}
+		// a comparison of an expandable call with a plain operand, below a connective
+		if !root && x.cmpCall(e, depth) != nil {
+			needs = true
+		}
 	}
 	scan(ifs.Cond, true)
 	if !needs {
@@ -2643,4 +2674,67 @@ func (x *expander) boolAssignToIf(as *ast.AssignStmt, depth int) []ast.Stmt {
 	probe.Body = &ast.BlockStmt{Lbrace: at, List: []ast.Stmt{set("true")}, Rbrace: at}
 	probe.Else = &ast.BlockStmt{Lbrace: at, List: []ast.Stmt{set("false")}, Rbrace: at}
 	return append(out, probe)
+}
+
+// cmpCall: e is `call OP operand` (or the mirror image) with an expandable single-result call and an operand whose
+// evaluation has no effect; it returns the position of the call operand.
+func (x *expander) cmpCall(e ast.Expr, depth int) *ast.Expr {
+	be, ok := ast.Unparen(e).(*ast.BinaryExpr)
+	if !ok {
+		return nil
+	}
+	switch be.Op {
+	case token.EQL, token.NEQ, token.LSS, token.GTR, token.LEQ, token.GEQ:
+	default:
+		return nil
+	}
+	for _, side := range []struct{ c, o *ast.Expr }{{&be.X, &be.Y}, {&be.Y, &be.X}} {
+		call, ok := ast.Unparen(*side.c).(*ast.CallExpr)
+		if !ok || !isPure(x.info, *side.o) {
+			continue
+		}
+		if _, exp := x.target(call, depth); !exp {
+			continue
+		}
+		if sig, ok := x.info.TypeOf(call.Fun).(*types.Signature); !ok || sig.Results().Len() != 1 {
+			continue
+		}
+		return side.c
+	}
+	return nil
+}
+
+// cmpCallToInit: `if helper(x) == nil {…}` is read as `if t := helper(x); t == nil {…}`, so that the helper is
+// expanded like any call assigned in an if-initialiser and its returns enter the branch their value selects.
+func (x *expander) cmpCallToInit(ifs *ast.IfStmt, depth int) bool {
+	if ifs.Init != nil {
+		return false
+	}
+	cond := ast.Unparen(ifs.Cond)
+	if u, ok := cond.(*ast.UnaryExpr); ok && u.Op == token.NOT {
+		cond = ast.Unparen(u.X)
+	}
+	slot := x.cmpCall(cond, depth)
+	if slot == nil {
+		return false
+	}
+	call := ast.Unparen(*slot).(*ast.CallExpr)
+	typ := x.info.TypeOf(call)
+	if typ == nil {
+		return false
+	}
+	x.seq++
+	at := call.Pos()
+	tmp := types.NewVar(at, x.top.Pkg.Types, fmt.Sprintf("inl%d_cmp", x.seq), typ)
+	def := &ast.Ident{NamePos: at, Name: tmp.Name()}
+	x.info.Defs[def] = tmp
+	use := &ast.Ident{NamePos: at, Name: tmp.Name()}
+	x.info.Uses[use] = tmp
+	if tv, ok := x.info.Types[call]; ok {
+		x.info.Types[use] = types.TypeAndValue{Type: tv.Type}
+	}
+	ifs.Init = &ast.AssignStmt{Lhs: []ast.Expr{def}, TokPos: at, Tok: token.DEFINE, Rhs: []ast.Expr{call}}
+	*slot = use
+	x.rewrote = true
+	return true
 }
